@@ -317,6 +317,10 @@ def fieldNamesDistinct : FieldList → Bool
   | .cons n _ fs => (fs.find? n).isNone && fieldNamesDistinct fs
 
 mutual
+/- NOTE: Go bounds the number of pointer / interface unwrapping steps by `maxLevel` as well
+   (more than maxLevel+1 steps: `max nested depth exceeded`).  The model has no hop counter:
+   values and types with more than `maxLevel` consecutive pointers are outside it (the harness
+   generates at most 100). -/
 def typeOf (t : GoType) (lv : Nat) : Except ConvErr Ty :=
   if lv > maxLevel then .error .depth else
   match t with
